@@ -1,7 +1,7 @@
 From Coq Require Import Extraction ExtrOcamlBasic ZArith List.
-From LP Require Import Num C18_Model.
+From LP Require Import Num C18_Model C18_Model2.
 Extraction Language OCaml.
 Extraction "C18_m.ml" sample_uniform sample_gauss sample_poisson sample_poisson_list inverse_transform
   rejection_sampling rejection_sampling_2d sample_metropolis sample_metropolis_2d
   inverse_transform_st rejection_sampling_st rejection_sampling_2d_st sample_metropolis_st sample_metropolis_2d_st
-  run_calls metro_imax metro_kept metro_consumed metro2_consumed Z.of_nat Z.to_nat.
+  run_calls sample_metropolis_w sample_metropolis_2d_w mt_seed mt_next mt_canon mt_stream run_from canon metro_imax metro_kept metro_consumed metro2_consumed Z.of_nat Z.to_nat.
